@@ -19,8 +19,8 @@ from .common import (clause, Fail, Skip, COEFS, BOOL_TYPES, SPIN_TYPES, MATRIX_T
                      canonical_keys, raw_keys, all_small_models, assignments, peval, qv, cls_of, close, snapshot,
                      _innermost_in_repo)
 
-LBL = ['a', 0, ('t', 1), 'b', 1, ('t', 0), 'c', 2]        # mixed hashable label types on purpose
-ILBL = [0, 1, 2, 3]
+LBL = ['a', 0, ('t', 1), 'b', 10, ('t', 0), 'c', 1]       # mixed hashable label types on purpose
+ILBL = [0, 1, 10, 3]                                       # 10: numeric order differs from string order
 NUMS = [-2, -1, 0, 1, 2, 0.5, 3]
 DIVS = [2, -2, 4, 0.5, -1]
 BIN = ("+", "-", "*")
@@ -549,8 +549,14 @@ def _gen_aliased(ctx):
                      {(labels[0], labels[1]): -1, (): 0.5}]
             rnd = [_rand_terms(rng, labels, 2, False, spin, deg2=T in DEG2_TYPES) for _ in range(n)]
             for terms in fixed + rnd:
-                for op in BIN + IBIN:
+                for op in ("+", "-", "*", "+=", "*="):
                     yield {"kind": _kind(spin), "expr": (op, ("m", T, terms), "self")}
+    # a -= a last (the runner records only the first 25 failures of a clause)
+    for spin in (False, True):
+        for T in _types(spin):
+            labels = ILBL[:3] if T in MATRIX_TYPES else ['a', 0, ('t', 1)]
+            for terms in ({}, {(): 2}, {(labels[0],): 1}, {(labels[0],): 1, (labels[1], labels[2]): 2}):
+                yield {"kind": _kind(spin), "expr": ("-=", ("m", T, terms), "self")}
 
 
 @clause("C05.aliased_operands", "C05", gen=_gen_aliased,
